@@ -181,6 +181,8 @@ type Exec struct {
 	steps     int
 	MaxSteps  int
 	pathConds []string
+	runningInit int
+	initDirect  *ssa.Function
 }
 
 func NewExec(e *Engine, s *smt.Solver) *Exec {
@@ -727,7 +729,7 @@ func (ex *Exec) explicitPanic(msg string) {
 
 // ---- globals ----
 
-var lazyInitPkgs = map[string]bool{"io": true, "errors": true, "unicode/utf8": true, "encoding/binary": true,
+var lazyInitPkgs = map[string]bool{"io": true, "unicode/utf8": true, "encoding/binary": true,
 	"sort": true, "math/bits": true, "io/fs": false}
 
 func isOurs(p *ssa.Package) bool {
@@ -744,7 +746,10 @@ func (ex *Exec) ensureInit(p *ssa.Package) {
 	}
 	if init := p.Func("init"); init != nil && len(init.Blocks) > 0 {
 		saved := ex.curPos
-		ex.call(init, nil)
+		prev := ex.initDirect
+		ex.initDirect = init
+		ex.callFn(init, nil, nil)
+		ex.initDirect = prev
 		ex.curPos = saved
 	}
 }
